@@ -285,7 +285,7 @@ func encodeDesc(d desc) []byte {
 		hi = f["offset"]
 		two = true
 	case "flat":
-		lo = 0xDC000000 | d.op<<18 | f["slc"]<<17 | f["glc"]<<16 | f["offset"]
+		lo = 0xDC000000 | d.op<<18 | f["slc"]<<17 | f["glc"]<<16 | f["seg"]<<14 | f["offset"]
 		hi = f["vdst"]<<24 | f["tfe"]<<23 | f["saddr"]<<16 | f["data"]<<8 | f["addr"]
 		two = true
 	case "ds":
@@ -415,6 +415,7 @@ func (e *c04env) roundTrip(rng *Rng, rows map[string][]*insts.InstType) {
 	case "flat":
 		f["addr"], f["data"], f["vdst"] = uint32(rng.Intn(256)), uint32(rng.Intn(256)), uint32(rng.Intn(256))
 		f["saddr"] = uint32(rng.Pick(0x7f, 0x7f, 0, 2, 10))
+		f["seg"] = uint32(rng.Pick(0, 0, 2, 2, 1)) // SEG: 0 flat (SADDR unused on CDNA3), 1 scratch, 2 global
 		f["glc"], f["slc"], f["tfe"] = uint32(rng.Intn(2)), uint32(rng.Intn(2)), uint32(rng.Intn(2))
 		f["offset"] = uint32(rng.Intn(1 << 13))
 		expectCodes["addr"], expectCodes["data"], expectCodes["dst"] = f["addr"], f["data"], f["vdst"]
